@@ -29,6 +29,14 @@ def events(src, n):
     acc, exc = guarded(lambda: [w for w in U.words_upto(sigma, n) if cfg_accepts_word(G, w)], 60)
     yield {"op": "cfg_accepts", "cfg": A, "n": n, "accepted": ab.words(acc or []), "exc": exc, "src": dict(src, n=n),
            "post_equal": ab.cfg(G) == A}
+    if len(str(A)) % 4 == 0:
+        # the optional flag: verbose=True prints the table construction and must not change the verdicts
+        import contextlib
+        import io
+        with contextlib.redirect_stdout(io.StringIO()):
+            acc, exc = guarded(lambda: [w for w in U.words_upto(sigma, min(n, 2)) if cfg_accepts_word(G, w, verbose=True)], 60)
+        yield {"op": "cfg_accepts", "cfg": A, "n": min(n, 2), "accepted": ab.words(acc or []), "exc": exc,
+               "src": dict(src, n=n), "post_equal": ab.cfg(G) == A, "verbose": 1}
     # the table, on the CNF form (a grammar that already is in CNF is used as it is)
     C, exc = guarded(lambda: G if G.is_chomsky() else cfg_to_chomsky(G))
     if exc != "none":
@@ -37,7 +45,13 @@ def events(src, n):
     rng = random.Random(len(str(A)))
     ws = [w for w in U.words_upto(sigma, n) if w]
     for w in rng.sample(ws, min(len(ws), 4)):
-        X, exc = guarded(lambda: cfg_cyk_matrix(C, w))
+        if len(w) % 2:
+            X, exc = guarded(lambda: cfg_cyk_matrix(C, w))
+        else:
+            import contextlib
+            import io
+            with contextlib.redirect_stdout(io.StringIO()):
+                X, exc = guarded(lambda: cfg_cyk_matrix(C, w, verbose=True))
         cells = []
         if exc == "none":
             m = len(w)
